@@ -34,11 +34,11 @@ import (
 // ---------------------------------------------------------------- fixed keys
 
 var (
-	keyMu    sync.Mutex
-	keys     = map[int]*ecdsa.PrivateKey{}
-	secs     = map[int]*secstore.SecStore{}
+	keyMu     sync.Mutex
+	keys      = map[int]*ecdsa.PrivateKey{}
+	secs      = map[int]*secstore.SecStore{}
 	keystore_ *keystore.KeyStore
-	subs_    *subscriptions.Manager
+	subs_     *subscriptions.Manager
 )
 
 // Key returns the i-th fixed private key (deterministic, so addresses/signatures/VRF
@@ -65,6 +65,10 @@ func Key(i int) *ecdsa.PrivateKey {
 }
 
 func Addr(i int) common.Address { return crypto.PubkeyToAddress(Key(i).PublicKey) }
+
+// KeyStore / Subs: the process-wide (empty) key store and subscription manager the replicas are built with.
+func KeyStore() *keystore.KeyStore { return keystore_ }
+func Subs() *subscriptions.Manager { return subs_ }
 
 func Sec(i int) *secstore.SecStore {
 	k := Key(i)
